@@ -700,7 +700,9 @@ def run_consumer(case, A_lib, Aref, V_lib, an, labels):
     if target == "diag" and tuple(evals.shape) != batch + (k,):
         _fail("shape", target, "shape", "eigenvalues have shape %s, expected %s" % (tuple(evals.shape), batch + (k,)))
     if not bool(torch.isfinite(res).all()):
-        if target == "root_inv" and not all(float(torch.linalg.eigvalsh(Aref.reshape(nb, n, n)[b]).min()) > 0 for b in range(nb)):
+        if target == "root_inv" and not all(
+            float(torch.linalg.eigvalsh(Aref.reshape(nb, n, n)[b]).min()) > 64.0 * n * u * float(torch.linalg.eigvalsh(Aref.reshape(nb, n, n)[b]).abs().max()) for b in range(nb)
+        ):  # (numerically singular: a computed smallest eigenvalue of a rank-deficient matrix may be +1e-17)
             labels.append("inv:singular_matrix_nonfinite")
             return infos
         _fail("finite", target, "nan", "non-finite entries in the result (k=%d)" % k)
